@@ -71,6 +71,8 @@ def jobs_c08(tier):
 def jobs_c17(tier):
     js = [fam("std", "fast", "counter"), fam("std", "checked", "counter")]
     js.append(fam("std", "fast", "real-stream"))
+    js.append(fam("std", "fast", "one-call"))
+    js.append(fam("std", "checked", "one-call"))
     return js
 
 
